@@ -368,5 +368,43 @@ func compUniverses(fields []string) []universe {
 		parts[i] = fieldGen[i](r)
 		return strings.Join(parts, ",")
 	}
-	return []universe{{name: "comp", next: next, probe: probe}}
+	// clusters: every field but the last numeric one is pinned to one of two values, so that the tuples below a
+	// branch share a long run of bytes (compressed paths beyond the inline limit)
+	var pinned [2][]string
+	pin := func(r *rand.Rand) {
+		if pinned[0] != nil {
+			return
+		}
+		for v := 0; v < 2; v++ {
+			pinned[v] = make([]string, len(fields))
+			for i := range fields {
+				pinned[v][i] = fieldGen[i](r)
+				if fields[i] == "s" {
+					pinned[v][i] = hexLit([]byte(strings.Repeat("p", 11+2*v)))
+				}
+			}
+		}
+	}
+	lastNum := -1
+	for i, f := range fields {
+		if f != "s" && f != "f32" && f != "f64" {
+			lastNum = i
+		}
+	}
+	clusterNext := func(r *rand.Rand) string {
+		pin(r)
+		parts := append([]string{}, pinned[r.Intn(2)]...)
+		if lastNum >= 0 {
+			w := widthOf(fields[lastNum])
+			base := parseBits(parts[lastNum], w) &^ 0xffff
+			parts[lastNum] = bitsLit((base|uint64(r.Intn(1<<12)))&maskW(w), w)
+		}
+		for i, f := range fields {
+			if f == "s" {
+				parts[i] = hexLit(append(unhex(parts[i]), randBytes(r, []byte("ab"), 0, 2)...))
+			}
+		}
+		return strings.Join(parts, ",")
+	}
+	return []universe{{name: "comp", next: next, probe: probe}, {name: "comp-cluster", next: clusterNext, probe: probe}}
 }
